@@ -464,6 +464,79 @@ func apiCheckConcurrent(t *testing.T) {
 	}
 }
 
+// apiCheckParked: a deterministic schedule instead of a race - a user function parks one evaluation in the middle of a step
+// loop (first call), meanwhile other evaluations run to completion on the same goroutine pool objects (key sorts, index
+// lists, result buffers, large results), then the parked one resumes: it must return what it returns alone.
+func apiCheckParked(t *testing.T) {
+	docs := []string{`{"on":true,"a":{"a":1,"b":2},"b":{"a":3,"c":[1,2]},"c":{"a":5}}`, `[{"a":1,"b":2},{"a":2,"c":3},{"a":3},{"b":[4,5,6]}]`}
+	disturbDocs := []interface{}{apiDecode(`{"w":{"p":10,"q":11},"x":{"p":20},"y":{"p":30,"r":1},"z":{"p":40}}`), apiDecode(`[[9,8,7,6],[5,4],[3,2,1,0,-1]]`)}
+	disturb := []string{`$.*`, `$.*.*`, `$..*`, `$[?(@.p)].p`, `$[?($.w)].*`, `$[::-1]`, `$[0,1,2][1:]`, `$['w','x','y']`, `$[*][0,1]`, `$..[0]`}
+	var dfs []func(interface{}) ([]interface{}, error)
+	for _, p := range disturb {
+		if f, err := Parse(p); err == nil {
+			dfs = append(dfs, f)
+		}
+	}
+	for _, path := range []string{`$[?(1 == 1)].park()`, `$[?($.on == true)].park()`, `$[?($.on == true)].*.park()`, `$.*.park()`, `$.*.*.park()`, `$..a.park()`, `$[?(@.a)].park()`, `$[?(@.a)].a.park()`,
+		`$['a','b','c'].park()`, `$['a','b'].*.park()`, `$[0:3].park()`, `$[::-1].park()`, `$[0,1,2].a.park()`, `$[*].*.park()`, `$..[?(@.a)].park()`} {
+		for _, ds := range docs {
+			var parkAt, calls int64
+			entered, release := make(chan struct{}, 1), make(chan struct{})
+			cfg := Config{}
+			cfg.SetFilterFunction("park", func(v interface{}) (interface{}, error) {
+				if n := atomic.AddInt64(&calls, 1); n == atomic.LoadInt64(&parkAt) {
+					entered <- struct{}{}
+					<-release
+				}
+				return v, nil
+			})
+			apiCount()
+			f, err := Parse(path, cfg)
+			if err != nil {
+				continue
+			}
+			alone, _ := apiEval(f, apiDecode(ds))
+			total := atomic.LoadInt64(&calls)
+			for at := int64(1); at <= total && at <= 3; at++ {
+				atomic.StoreInt64(&calls, 0)
+				atomic.StoreInt64(&parkAt, at)
+				release = make(chan struct{})
+				done := make(chan apiOutcome, 1)
+				go func() {
+					o, _ := apiEval(f, apiDecode(ds))
+					done <- o
+				}()
+				select {
+				case <-entered:
+					for _, df := range dfs {
+						for _, dd := range disturbDocs {
+							apiCount()
+							_, _ = df(dd)
+						}
+					}
+					close(release)
+				case o := <-done:
+					done <- o
+				case <-time.After(10 * time.Second):
+					t.Errorf("REPRODUCED: %q on %s: the evaluation neither reached its function nor finished", path, ds)
+					return
+				}
+				select {
+				case o := <-done:
+					if o != alone {
+						t.Errorf("REPRODUCED: %q on %s gives %+v when other evaluations run while its function (call %d) is parked, alone %+v", path, ds, o, at, alone)
+						return
+					}
+				case <-time.After(10 * time.Second):
+					t.Errorf("REPRODUCED: %q on %s: the parked evaluation did not finish", path, ds)
+					return
+				}
+				atomic.StoreInt64(&parkAt, 0)
+			}
+		}
+	}
+}
+
 // diffCount: number of leaf positions at which two JSON-like values differ
 func apiDiffCount(a, b interface{}) int {
 	switch x := a.(type) {
@@ -3838,6 +3911,9 @@ func TestVerifReplay(t *testing.T) {
 		apiCheckConcurrent(t)
 		if !t.Failed() {
 			apiCheckRegexConcurrent(t)
+		}
+		if !t.Failed() {
+			apiCheckParked(t)
 		}
 		if !t.Failed() {
 			apiCheckPure(t)
